@@ -24,10 +24,10 @@ add("C02", E1, "model_checking", "exhaustive enumeration of all ordered (stored,
     "All ordered pairs of distinct values over the alphabet: replay of a different value must signal exactly one failure, perform no mutating fs operation and leave the directory identical; the recorded value still passes afterwards.",
     NOTE, "§6 C02")
 
-add("C03", E1, "model_checking", "explicit-state breadth-first search over Call/End histories with state de-duplication, each transition executed on the real code and compared with a reference model",
+add("C03", E1, "model_checking", "explicit-state breadth-first search over Call/End histories with state de-duplication, each transition executed on the real code and compared with a reference model; linear families incl. pre-existing files without final newline / with CR LF line ends / truncated, rejected calls, calls made from t.Cleanup",
     "BFS over histories of Call(test,value,update?)/End(test) for tests whose names are prefixes/children of each other, two files, re-execution after End; after every transition the outcome, the addressed slot and parse(disk) must equal the model's; plus linear families with 10-12 ordinals.",
     NOTE, "§6 C03")
-add("C04", E1, "model_checking", "exhaustive enumeration of (old,new) value assignments per file layout and API, update run then read-only run on the real code against the model; interposed-calls pass",
+add("C04", E1, "model_checking", "exhaustive enumeration of (old,new) value assignments per file layout and API, update run then read-only run on the real code against the model, also on files without final newline and with CR LF line ends; interposed-calls pass",
     "Every assignment of value pairs (unchanged/shorter/longer/empty/multi-line/terminator-, template- and header-like) to the entries of each layout, update enabled by env and by option: exactly the changed entries are rewritten to the new values, untouched entries keep their byte spans in place, matching calls perform no write, a read-only run passes without writing.",
     NOTE, "§6 C04")
 add("C05", E1 + " (+E3 twin)", "model_checking", "complete enumeration of the finite mode table (360 call cells + 128 Clean cells), UPDATE_SNAPS taken from the real process environment",
@@ -36,13 +36,13 @@ add("C05", E1 + " (+E3 twin)", "model_checking", "complete enumeration of the fi
 add("C06", E2, "model_checking", "stateless exploration of every interleaving at lock and file-system operations of the real code under a cooperative scheduler (preemption-bounded, thorough: unbounded with state-key pruning); separate free-running -race pass",
     "2-3 concurrently running tests sharing one snapshot file and shared Configs, every assignment of create/match/mismatch/update/standalone/Skip: every schedule within the bound is executed; each call must get its serial outcome, the final file must hold exactly one well-formed entry per slot, no deadlock, counters equal serial ones. Data-race clause: dynamic -race pass (not exhaustive).",
     NOTE + " Scheduler assumption A1: one write(2) on an O_APPEND descriptor is atomic; unsynchronised memory accesses are only seen by the race pass.", "§6 C06, §5.2")
-add("C07", E1, "model_checking", "exhaustive enumeration of two-test programs x call shapes x -count x Clean modes against the model's addressed set, on the real code",
+add("C07", E1, "model_checking", "exhaustive enumeration of two-test programs x call shapes x -count x Clean modes against the model's addressed set, on the real code (every fourth scenario on CR LF files)",
     "Pairs of tests from the name alphabet x 8 call shapes (two files, standalone, failing calls, header-looking values) x -count 1..3 x sort x CI x -run, in each UPDATE_SNAPS process: nothing addressed in this run is listed obsolete, removed or altered by Clean, and a following read-only run still passes.",
     NOTE, "§6 C07")
-add("C09", E1, "model_checking", "exhaustive enumeration of directory contents x addressed sets x Clean modes against the model's stale sets, on the real code",
+add("C09", E1, "model_checking", "exhaustive enumeration of directory contents x addressed sets x Clean modes against the model's stale sets, on the real code (every fifth scenario on CR LF files; stale ids incl. spellings the library never writes)",
     "Every combination of stale entries/files, unrelated files, sub-directories, directory names and spellings, -count, sort, CI, skip protection in each UPDATE_SNAPS process: the summary lists exactly the stale items, removal happens iff clean mode, everything else is byte/inode/mtime identical.",
     NOTE, "§6 C09")
-add("C10", E1, "model_checking", "exhaustive enumeration of entry sets x liveness x bodies with EVERY permutation as initial order, Clean;Clean on the real code",
+add("C10", E1, "model_checking", "exhaustive enumeration of entry sets x liveness x bodies with EVERY permutation as initial order (every third one as a CR LF file), Clean;Clean on the real code",
     "Every subset of an id universe (<=4/5 entries), liveness and body assignment, sort on/off, each UPDATE_SNAPS process; per case every permutation: survivors keep their values, natural order when sorting, order independent of the initial permutation, no write when nothing to do, second Clean is a no-op.",
     NOTE, "§6 C10")
 add("C12", E1 + " + " + E2, "model_checking", "exhaustive enumeration of call sequences through one Config (differential against the last call alone, second execution, pairs of Configs with different option sets) plus every interleaving of concurrent pairs through one Config; free-running -race pass",
